@@ -40,7 +40,7 @@ func init() {
 				}
 				return 100_000
 			}, Run: func(c *run.Ctx, idx uint64) { c07Run(c, idx, true) },
-				Min: map[string]int64{"histories": 50000, "steps": 1000000, "selector_comparisons": 1000000, "incrementing_writes": 100000, "zero_value_encoder": 1000, "paths_drawn": 50000, "gradient_paints": 2000, "through_logger": 2000, "raster_calls_compared": 500000}},
+				Min: map[string]int64{"histories": 50000, "steps": 1000000, "selector_comparisons": 1000000, "incrementing_writes": 100000, "zero_value_encoder": 1000, "paths_drawn": 50000, "gradient_paints": 2000, "through_logger": 2000, "runs_of_255_or_more": 500, "raster_calls_compared": 500000}},
 			{Name: "helpers", N: func(t string) uint64 {
 				if t == "thorough" {
 					return 5_000_000
@@ -237,7 +237,12 @@ func c07History(c *run.Ctx, r *run.Rng, exact bool) (vb ivg.ViewBox, pal [64]col
 			}
 			for m := r.Range(1, 6); m > 0; m-- {
 				kk := verbs[r.Intn(len(verbs))]
-				for l := r.Pick(1, 1, 2, 17, 33); l > 0; l-- {
+				l := r.Pick(1, 1, 2, 17, 33)
+				if r.Chance(1, 60) {
+					l = r.Pick(255, 256, 257, 300) // around the widths of 8-bit counters
+					c.Count("runs_of_255_or_more", 1)
+				}
+				for ; l > 0; l-- {
 					add(gen.DrawOp(r, kk, &o))
 				}
 			}
